@@ -36,6 +36,11 @@ var cellDefs = []cellDef{
 	{name: "call.arg"}, {name: "setq.value"},
 	{name: "funcall-lambda.body"}, {name: "funcall-lambda.last"},
 	{name: "mapcar-lambda.body"}, {name: "mapcar-lambda.last"},
+	{name: "mapc-lambda.body"}, {name: "mapc-lambda.last"},
+	{name: "maplist-lambda.body"}, {name: "maplist-lambda.last"},
+	{name: "mapl-lambda.body"}, {name: "mapl-lambda.last"},
+	{name: "prog.init"}, {name: "prog.body"}, {name: "prog*.init"}, {name: "prog*.body"},
+	{name: "loop.body"},
 	{name: "defun.body"}, {name: "defun.last"}, {name: "closure.body"},
 	{name: "block.body", wrapper: true}, {name: "block.last", wrapper: true},
 	{name: "tagbody.stmt", wrapper: true},
@@ -222,8 +227,16 @@ func (b *builder) wrap(L *layer, X *sx) *sx {
 		return call("setq", atom("sv"), X)
 	case "funcall-lambda":
 		return call("funcall", seq(atom("lambda"), lst(atom("p"))), num(1))
-	case "mapcar-lambda":
-		return call("mapcar", seq(atom("lambda"), lst(atom("p"))), loop12)
+	case "mapcar-lambda", "mapc-lambda", "maplist-lambda", "mapl-lambda":
+		return call(strings.TrimSuffix(form, "-lambda"), seq(atom("lambda"), lst(atom("p"))), loop12)
+	case "prog", "prog*":
+		if pos == "init" {
+			return call(form, lst(lst(atom("u1"), P()), lst(atom("u2"), X), lst(atom("u3"), b.M())), A())
+		}
+		return call(form, lst(lst(atom("u1"), b.M())), P(), X, A())
+	case "loop":
+		b.m++
+		return call("loop", P(), X, A(), call("return", num(b.m+40)))
 	case "closure":
 		// the closure is handed to another function and called from there
 		return call("funcall",
